@@ -15,6 +15,7 @@
 package simrt
 
 import (
+	"context"
 	"fmt"
 	"iter"
 	"reflect"
@@ -514,36 +515,52 @@ func Sleep(site string, d time.Duration) {
 	s.park(t, site+"/woke")
 }
 
+// runAsTask runs f as a library task on the calling (foreign) goroutine's
+// behalf: used for callbacks that the runtime or the standard library starts
+// on goroutines of their own (timers, context.AfterFunc).
+func runAsTask(site string, f func()) {
+	s := S
+	if s == nil || s.free.Load() {
+		f()
+		return
+	}
+	done := make(chan struct{})
+	s.mu.Lock()
+	t := &Task{ID: len(s.Tasks), Name: site, Lib: true, gate: make(chan struct{}), State: Parked, Site: site + "/start"}
+	s.Tasks = append(s.Tasks, t)
+	s.event(EvSpawn, -1, site, t.ID, "callback")
+	s.mu.Unlock()
+	go func() {
+		defer close(done)
+		defer func() {
+			if r := recover(); r != nil {
+				s.mu.Lock()
+				t.Panic = r
+				t.PanicStack = trimStack(string(debug.Stack()))
+				s.mu.Unlock()
+			}
+			s.mu.Lock()
+			t.State = Exited
+			t.ExitSeq = s.Seq
+			t.ExitVT = time.Since(s.T0)
+			s.mu.Unlock()
+			s.signal()
+		}()
+		<-t.gate
+		f()
+	}()
+	s.signal()
+	<-done
+}
+
 // AfterFunc replaces time.AfterFunc: the callback runs as a library task.
 func AfterFunc(site string, d time.Duration, f func()) *time.Timer {
-	return time.AfterFunc(d, func() {
-		s := S
-		if s == nil || s.free.Load() {
-			f()
-			return
-		}
-		done := make(chan struct{})
-		s.mu.Lock()
-		t := &Task{ID: len(s.Tasks), Name: site, Lib: true, gate: make(chan struct{}), State: Parked, Site: site + "/start"}
-		s.Tasks = append(s.Tasks, t)
-		s.mu.Unlock()
-		go func() {
-			defer close(done)
-			defer func() {
-				if r := recover(); r != nil {
-					t.Panic = r
-				}
-				s.mu.Lock()
-				t.State = Exited
-				s.mu.Unlock()
-				s.signal()
-			}()
-			<-t.gate
-			f()
-		}()
-		s.signal()
-		<-done
-	})
+	return time.AfterFunc(d, func() { runAsTask(site, f) })
+}
+
+// CtxAfterFunc replaces context.AfterFunc: the callback runs as a library task.
+func CtxAfterFunc(site string, ctx context.Context, f func()) (stop func() bool) {
+	return context.AfterFunc(ctx, func() { runAsTask(site, f) })
 }
 
 // ------------------------------------------------------------------ select
@@ -738,6 +755,84 @@ func rawSelect(hasDefault bool, cases []Case) Sel {
 	}
 	return Sel{I: i, V: v, OK: ok}
 }
+
+// ReflectSelect replaces reflect.Select in instrumented code: same protocol as
+// Select (park, poll ready cases in a tape-chosen order, else block for real).
+func ReflectSelect(site string, cases []reflect.SelectCase) (chosen int, recv reflect.Value, recvOK bool) {
+	s, t := enter(site)
+	if t == nil {
+		return reflect.Select(cases)
+	}
+	n := len(cases)
+	def := -1
+	for i, c := range cases {
+		if c.Dir == reflect.SelectDefault {
+			def = i
+		}
+	}
+	start := 0
+	if n > 1 {
+		start = s.Choose(ChSelect, n, site)
+	}
+	for k := 0; k < n; k++ {
+		i := (start + k) % n
+		c := cases[i]
+		if c.Dir == reflect.SelectDefault || !c.Chan.IsValid() || c.Chan.IsNil() {
+			continue
+		}
+		if c.Dir == reflect.SelectSend {
+			if c.Chan.TrySend(c.Send) {
+				s.selTaken(t, site, i, 0, -1)
+				return i, reflect.Value{}, false
+			}
+		} else if v, ok := c.Chan.TryRecv(); ok || v.IsValid() {
+			s.selTaken(t, site, i, 0, -1)
+			return i, v, ok
+		}
+	}
+	if def >= 0 {
+		s.selTaken(t, site, -1, 0, -1)
+		return def, reflect.Value{}, false
+	}
+	s.blocking(t, site, func() { chosen, recv, recvOK = reflect.Select(cases) })
+	s.mu.Lock()
+	s.event(EvSel, t.ID, site, chosen, "woke")
+	s.mix(strHash(site) + uint64(chosen+2)*7919)
+	s.mu.Unlock()
+	return
+}
+
+// RSend, RRecv, RTrySend, RTryRecv and RClose replace the channel methods of
+// reflect.Value.
+func RSend(site string, c, v reflect.Value) {
+	s, t := enter(site)
+	if t == nil {
+		c.Send(v)
+		return
+	}
+	if c.TrySend(v) {
+		return
+	}
+	s.blocking(t, site, func() { c.Send(v) })
+}
+
+func RRecv(site string, c reflect.Value) (v reflect.Value, ok bool) {
+	s, t := enter(site)
+	if t == nil {
+		return c.Recv()
+	}
+	if x, ok := c.TryRecv(); ok || x.IsValid() {
+		return x, ok
+	}
+	s.blocking(t, site, func() { v, ok = c.Recv() })
+	return
+}
+
+func RTrySend(site string, c, v reflect.Value) bool { enter(site); return c.TrySend(v) }
+
+func RTryRecv(site string, c reflect.Value) (reflect.Value, bool) { enter(site); return c.TryRecv() }
+
+func RClose(site string, c reflect.Value) { enter(site); c.Close() }
 
 // --------------------------------------------------------- driver interface
 
@@ -1097,18 +1192,27 @@ type Pool struct {
 func (p *Pool) Get() any {
 	s := S
 	rawMu.Lock()
-	defer rawMu.Unlock()
-	if n := len(p.free); n > 0 {
-		if s != nil && s.PoolEvict && !RawLib && !s.free.Load() && s.cur != nil && s.Choose(ChPool, 4, "pool") == 1 {
+	n := len(p.free)
+	rawMu.Unlock()
+	if n > 0 {
+		// the eviction decision and New may park (New is instrumented user
+		// code): never under rawMu
+		evict := s != nil && s.PoolEvict && !RawLib && !s.free.Load() && s.cur != nil && s.Choose(ChPool, 4, "pool") == 1
+		rawMu.Lock()
+		if evict {
 			p.free = nil
 			s.PoolEvictions++
-		} else {
-			x := p.free[n-1]
-			p.free = p.free[:n-1]
+			rawMu.Unlock()
+		} else if m := len(p.free); m > 0 {
+			x := p.free[m-1]
+			p.free = p.free[:m-1]
 			if s != nil {
 				s.PoolReuses++
 			}
+			rawMu.Unlock()
 			return x
+		} else {
+			rawMu.Unlock()
 		}
 	}
 	if p.New == nil {
